@@ -40,7 +40,7 @@ def call(med, radio, fn, *a):
         settle(med)
 
 
-def o1_cosim(ctx, joiners, relay, relay_addr=0o1):
+def o1_cosim(ctx, joiners, relay, relay_addr=0o1, releaser="last"):
     from circuitpython_nrf24l01.rf24_mesh import RF24Mesh, RF24MeshNoMaster
     clock = fresh_env(ctx, tick_ns=2_000_000)
     clock.max_looks = 60000
@@ -127,7 +127,11 @@ def o1_cosim(ctx, joiners, relay, relay_addr=0o1):
         nodes.append((k, rj, nj, addr))
     ctx.check(not med.errors, "no node raised: %r" % (med.errors[:1],))
     # lookups
-    k0, r0, n0, a0 = nodes[-1]
+    # the node that asks, sends, releases and re-joins below, and a second connected node
+    me = len(nodes) - 1 if releaser == "last" else len(nodes) - joiners
+    k0, r0, n0, a0 = nodes[me]
+    peer = (me - 1) if releaser == "last" else len(nodes) - 1
+    others = [e for i, e in enumerate(nodes) if i != me]
     snapshot = [list(e) for e in table_items(master)]
     for (k, r, n, a) in nodes:
         ctx.check(call(med, r0, n0.lookup_address, k) == a, "lookup_address(id) returns the master's mapping")
@@ -150,7 +154,7 @@ def o1_cosim(ctx, joiners, relay, relay_addr=0o1):
     ctx.check(not med.errors, "no node raised during lookups: %r" % (med.errors[:1],))
     # a message sent to a node ID arrives at that node
     if len(nodes) >= 2:
-        k1, r1, n1, a1 = nodes[-2]
+        k1, r1, n1, a1 = nodes[peer]
         body = ctx.bytes("body", 3)
         queue_frames(n1)
         ok = call(med, r0, n0.send, k1, 9, body)
@@ -165,6 +169,12 @@ def o1_cosim(ctx, joiners, relay, relay_addr=0o1):
             ctx.check(s_and(got.header.from_node == a0, got.header.message_type == 9, bytes_eq(got.message, want)), "intact, in order")
     # connection checks, release, re-join
     ctx.check(call(med, r0, n0.check_connection) == True, "check_connection() is True for a connected node")  # noqa: E712
+    # (the node's last activity before releasing is a fragmented message to the master: the release must still be a release)
+    big = ctx.bytes("big", 40)
+    queue_frames(master)
+    ctx.check(call(med, r0, n0.send, 0, 33, big) == True, "send(0, ...) of a 40-byte message to the master succeeds")  # noqa: E712
+    qm = queue_frames(master)
+    ctx.check(len(qm) == 1 and len(qm[0].message) == 40 and bool(bytes_eq(qm[0].message, big)), "the master receives it, whole")
     ctx.check(call(med, r0, n0.release_address) == True, "release_address() succeeds")  # noqa: E712
     ctx.check(n0.node_address == 0o4444, "release_address() returns the node to the unassigned address")
     listening_ok(ctx, r0, 0o4444, "after release_address()")
@@ -175,9 +185,21 @@ def o1_cosim(ctx, joiners, relay, relay_addr=0o1):
     ctx.check(again is not None, "a re-join works")
     if again is not None:
         ctx.check(s_and(NS.valid(again), again != 0, again != 0o4444), "re-join yields a valid address")
-        for (_k, _r, _n, a) in nodes[:-1]:
+        for (_k, _r, _n, a) in others:
             ctx.check(a != again, "re-join: different from every other connected node's")
         listening_ok(ctx, r0, again, "after re-joining")
+        ctx.check(len(queue_frames(master)) == 0, "nothing of the release / re-join reaches the master's application")
+        if len(nodes) >= 2:
+            # a node that is still connected renews its address (its lease now precedes the re-joined node's in the table)
+            k1, r1, n1, a1 = nodes[peer]
+            new1 = call(med, r1, n1.renew_address, 2.0)
+            ctx.check(new1 is not None, "renew_address() of a connected node returns an address")
+            if new1 is not None:
+                ctx.check(s_and(NS.valid(new1), new1 != 0, new1 != 0o4444, new1 != again), "a valid address different from the re-joined node's")
+                for (_k, _r, _n, a) in [e for i, e in enumerate(nodes) if i not in (me, peer)]:
+                    ctx.check(a != new1, "renewal: different from every other connected node's")
+                tab = table_items(master)
+                ctx.check(s_or(*[s_and(kk == k1, aa == new1) for kk, aa in tab]), "renewal: recorded under its ID in the master's table")
     ctx.check(not med.errors, "no node raised: %r" % (med.errors[:1],))
     for r in med.radios:
         ctx.check(not r.unspecified, "no use of radio behaviour the specification leaves open")
@@ -313,6 +335,8 @@ def jobs(tier):
     out = []
     for j in ((1, 2, 3, 4, 6) if tier == "quick" else (1, 2, 3, 4, 5, 6, 8, 12)):
         out.append(Job("O1-co-simulation", o1_cosim, dict(joiners=j, relay=False), cost=100 * j))
+        if j in (2, 3):  # the first joiner releases and re-joins, then the last one renews (table order differs from join order)
+            out.append(Job("O1-co-simulation", o1_cosim, dict(joiners=j, relay=False, releaser="first"), cost=100 * j))
     for j in ((1, 2, 3) if tier == "quick" else (1, 2, 3, 4)):
         out.append(Job("O1-co-simulation-through-relay", o1_cosim, dict(joiners=j, relay=True), cost=200 * j))
     for ra in ((0o444,) if tier == "quick" else (0o444, 0o44, 0o21)):
